@@ -31,7 +31,7 @@ CLAIMED = {
             "(insert_u/v/w_preserves_volume_point at given spans, insert_u/v/w_preserves_volume with the linear-search spans for every parameter triple of the domain; the whole homogeneous point is preserved, hence rational shapes; "
             "insertKnotDir_volume ties the object-level model to mapVol with A5.1 on every iso-curve). The model (including the per-direction gather/scatter for surfaces "
             "and volumes and the partial application when a later direction is rejected) is tied to operations.insert_knot and the insert_knot methods by exact correspondence.",
-            "Surfaces: proved for both directions (insert_u/insert_v_preserves_surface_point: the gather / scatter of iso-curves of the model preserves every surface point). Volumes: proved for all three directions. Not proved: the request-list induction (sequences, several directions in one call) for surfaces / volumes (curves only); A5.1's in-place loops vs the model's index-by-index form is tied by correspondence."),
+            "Surfaces: proved for both directions (insert_u/insert_v_preserves_surface_point: the gather / scatter of iso-curves of the model preserves every surface point). Volumes: proved for all three directions. Object level: one insert_knot call on any subset of the directions of a surface / volume and any sequence of such calls preserve well-formedness, domain and every evaluated point and complete, under DirReqOk per requested direction (insertKnot_preserves_surface/_volume, insert_call_sequence_preserves_*); a rejected later direction leaves the earlier ones applied with the same points (insertKnot_partial_application_*). Not covered: u = U_n, check=False beyond p - s, curve objects at Shape level (curves are proved at helper level); A5.1's in-place loops vs the model's index-by-index form is tied by correspondence."),
     'C05': ("7/C05",
             "Lean theorems over the executable model, for any degree, dimension, density and ordered field: the admissibility predicate RefineOk is DISCHARGED for the knot list X the library generates (counting argument under tolerance separation, any order); "
             "knotRefinement and knotRefinementOf (explicit knot_list / add_knot_list) preserve every curve point on the whole domain (hypotheses: well-formed curve, clamped end, 0 <= tol, knots pairwise equal or more than tol apart); the refined knot vector is sorted and "
@@ -39,7 +39,7 @@ CLAIMED = {
             "refine_knotvector leaves density-0 directions untouched (any dimension); refineDir in u and v and refine_knotvector on any subset of a surface's directions preserve every surface point and the domain. "
             "The model of helpers.knot_refinement is specification-level (the list X the code computes, inserted one knot at a time with the A5.1 model proved shape preserving in C04); that the code's A5.4 returns exactly these knots and control points "
             "is checked by exact correspondence through operations.refine_knotvector on curves, surfaces and volumes (all direction subsets, densities 1..2) and at helper level with explicit knot lists.",
-            "Not proved: volumes (only the untouched directions; shape preservation by oracle + correspondence); A5.4's loops themselves are not modelled (specification-level model), so 'A5.4 as coded = fold of insertions' rests on the correspondence. F-05a / F-05b (helper-level refinement with explicit knot lists) were reported with replays and fixed."),
+            "Volumes: refineDir in every direction and refine_knotvector on any subset of the three directions preserve every volume point and the domain (refineDir_preserves_volume, refineKnotvector_preserves_volume; clamped end + tolerance separation per refined direction). Not proved: A5.4's loops themselves are not modelled (specification-level model), so 'A5.4 as coded = fold of insertions' rests on the correspondence. F-05a / F-05b (helper-level refinement with explicit knot lists) were reported with replays and fixed."),
     'C06': ("7/C06",
             "Lean theorems (all degrees, positions, prior multiplicities, counts, tolerances >= 0): knot removal A5.8 as coded INVERTS knot insertion A5.1 - r insertions then t <= r removals (called with the span k+r and multiplicity s+r that find_span_linear / "
             "find_multiplicity are proved to return on the refined knot vector) yield exactly the control net of r-t insertions, t = r the original net, for curves, both surface directions and all three volume directions; knot vector and net sizes drop by exactly "
@@ -47,7 +47,7 @@ CLAIMED = {
             "The model knotRemoval mirrors the repaired code (F-06; the check reported the violation with a replay on the pinned tree first) and is tied to operations.remove_knot / remove_knot methods by exact correspondence, including the removal of knots that are not "
             "removable and removals in several directions in one call. The exact oracle additionally checks removal after refinement, insert r / remove t <= r in every direction of curves, surfaces, volumes: knot vector, sizes, evaluated points, control points.",
             "Not proved in Lean: removability of knots not inserted immediately before the removal (refinement; inserted knots after which other knots were inserted; 'whenever removable at all' needs uniqueness of B-spline coefficients) - oracle + correspondence; "
-            "the Shape-level round trip and the evaluated-point corollary are stated for curves only (surfaces / volumes: net-level theorem + C04). Volumes: only removable knots generated (the code derives one removability flag from the first iso-curve)."),
+            "the Shape-level round trip, partial removal (t <= r) and the evaluated-point corollary are proved for curves, either direction of a surface and any direction of a volume with one requested direction per call; several directions in / several out in one call is not proved (oracle + correspondence). Volumes: only removable knots generated (the code derives one removability flag from the first iso-curve)."),
     'C07': ("7/C07",
             "Lean theorems, END TO END through the model functions the correspondence runs (splitDir, decomposeDir, decomposeUV), spans found by find_span_linear, closed end parameters included: split_curve_pieces_coincide (both pieces = original under the affine maps "
             "of their domains, pieces clamped 0^{p+1}..1^{p+1}, sizes |P|+r+1), split_surface_u/v_pieces_coincide, decompose_curve_pieces / decompose_curve_count (exactly one Bezier piece per non-empty knot interval, in order, each coinciding with the original on its "
